@@ -157,7 +157,8 @@ def g_sequences(depth, start_kinds, alphabets=None):
         other = None
         for k in range(depth):
             multi = isinstance(s, tmo.MultiStream)
-            ops = ['write', 'set_flow', 'set_total', 'T:=', 'P:=', 'link', 'unlink', 'copy_like'] + ([] if multi else ['phase:=', 'phases:='])
+            ops = ['write', 'set_flow', 'set_total', 'T:=', 'P:=', 'link', 'unlink', 'copy_like'] + ([] if multi else ['phase:=', 'phases:=']) \
+                + (['unlink-other', 'write-other'] if other is not None else [])
             if alphabets is not None:
                 ops = [o for o in alphabets[k] if o in ops]
             op = E.pick(ops, f'op{k}')
@@ -231,6 +232,16 @@ def g_sequences(depth, start_kinds, alphabets=None):
             elif op == 'unlink':
                 s.unlink()
                 log.append('unlink')
+            elif op == 'unlink-other':
+                other.unlink()
+                log.append('unlink-other')
+            elif op == 'write-other':
+                view = E.pick(['mol', 'mass'], f'view{k}')
+                i = E.choice(N, f'i{k}')
+                v = new_val(E, k)
+                key = (other.phases[0], IDs[i]) if isinstance(other, tmo.MultiStream) else IDs[i]
+                getattr(other, 'i' + view)[key] = v
+                log.append(f'write-other-{view}')
             check_views(E, s, ' ; '.join(log))
             if other is not None and op != 'link':
                 check_views(E, other, ' ; '.join(log) + ' [linked stream]')
@@ -262,8 +273,8 @@ def g_dimensions():
 
 def groups(tier):
     q = tier == 'quick'
-    chain = ([['link', 'copy_like'], ['write', 'T:=', 'phase:=', 'unlink']] if q else
-             [['link', 'copy_like', 'phases:=', 'T:='], ['write', 'set_total', 'T:=', 'P:=', 'phase:=', 'unlink', 'copy_like']])
+    chain = ([['link', 'copy_like'], ['write', 'T:=', 'phase:=', 'unlink', 'unlink-other', 'write-other']] if q else
+             [['link', 'copy_like', 'phases:=', 'T:='], ['write', 'set_total', 'T:=', 'P:=', 'phase:=', 'unlink', 'copy_like', 'unlink-other', 'write-other']])
     g = {
         # one operation from a stream whose views (and molar-volume memo) may already exist
         'single-operation': (g_sequences(1, ['l', 'g'] if q else ['l', 'g', 's']), dict(max_paths=200000, qtimeout_ms=20000)),
